@@ -12,6 +12,7 @@ from engine.util import own_nodes, calls_with_nodes, where
 
 RULES = {
     "R-09.7": "names inside records of a zone file are made relative to the ZONE origin even below a `$ORIGIN` line: every name-reading call of a text reader passes origin, relativize and relativize_to on (C05 R-05.6 adopted)",
+    "R-09.6": "$INCLUDE saves the including file's reader state before any of it is changed and restores the same fields in the same order at the end of the included file (tokenizer, current origin, last owner, file, TTL state)",
     "R-09.5": "skipping an ignored (out-of-zone) line terminates at end of input as well as at end of line: token loops of the zone reader leave on EOF (shared with C04 R-04.6)",
     "R-09.4": "character-strings written by the zone writer are read back octet for octet: the \\DDD escape is written and read with 3 digits and accepted up to 255 (C05 R-05.2 adopted)",
     "R-09.1": "the zone writer never raises for a style that keeps all information: the generic (\\#) path encodes with the style's origin, the writer functions contain no explicit raise, and every boolean style knob only selects between two total formatting branches",
@@ -180,6 +181,30 @@ def run(model, rep, tier):
         and pat.has(ap.node, "__kind = NodeKind.classify_rdataset(rdataset)", e9)
     rep.check(okk, "R-09.3", ap.qualname, where(ap, ap.node), "adding a CNAME-kind rdataset drops exactly the REGULAR ones and vice versa (NEUTRAL ones and the same kind stay)",
               "the node-level exclusivity filter changed: e.g. a CNAME and its own RRSIG(CNAME) evict each other, or regular data survives next to a CNAME", stmt="node-filter")
+    # ---------------------------------------------------------------- R-09.6
+    rd6 = model.func("dns.zonefile.Reader.read")
+    saves = [c for c in ast.walk(rd6.node) if isinstance(c, ast.Call) and src(c.func) == "self.saved_state.append" and c.args and isinstance(c.args[0], ast.Tuple)]
+    restores = [n for n in ast.walk(rd6.node) if isinstance(n, ast.Assign) and isinstance(n.targets[0], ast.Tuple) and isinstance(n.value, ast.Call) and src(n.value.func) == "self.saved_state.pop"]
+    if len(saves) != 1 or len(restores) != 1:
+        rep.blind("R-09.6", rd6.qualname, where(rd6, rd6.node), f"$INCLUDE save/restore not found ({len(saves)} saves, {len(restores)} restores)", stmt="include-state")
+    else:
+        saved = [src(e) for e in saves[0].args[0].elts]
+        restored = [src(e) for e in restores[0].targets[0].elts]
+        rep.check(saved == restored and len(saved) >= 8 and [src(a) for a in restores[0].value.args] in (["-1"], []), "R-09.6", rd6.qualname, where(rd6, restores[0]), f"restores {len(restored)} fields in the order they were saved (LIFO)",
+                  f"the fields restored at the end of an included file {restored} are not the fields saved at $INCLUDE {saved} in the same order (or not popped from the end)", stmt="include-restore")
+        blk = next((b for b in pat._bodies(rd6.node) if any(isinstance(st, ast.Expr) and st.value is saves[0] for st in b)), None)
+        early = []
+        if blk is not None:
+            idx = next(i for i, st in enumerate(blk) if isinstance(st, ast.Expr) and st.value is saves[0])
+            for st in blk[:idx]:
+                for x in ast.walk(st):
+                    if isinstance(x, (ast.Assign, ast.AugAssign, ast.AnnAssign)):
+                        for t_ in (x.targets if isinstance(x, ast.Assign) else [x.target]):
+                            if src(t_) in saved:
+                                early.append(x)
+        rep.check(blk is not None and not early, "R-09.6", rd6.qualname, where(rd6, early[0] if early else saves[0]), "the state is saved before the $INCLUDE arm changes any of it",
+                  (f"`{src(early[0])[:50]}` runs before the state is saved: the included file's value is what gets restored, so the rest of the including file is read under the wrong "
+                   "origin / owner / TTL (names silently land elsewhere)") if early else "the save is not a statement of the $INCLUDE arm", stmt="include-save-first")
     rep.meta["explanation"] = (
         "Three narrow structural clauses: the generic-syntax path encodes with the style's origin and the writer functions cannot raise; a taint-style gate analysis of the owner name in "
         "_rr_line/_generate_line (reachability with the in-zone edge removed, caller-supplied force_name exempt); and who-may-call / must-pass-through for the CNAME-exclusivity hook. "
@@ -187,6 +212,11 @@ def run(model, rep, tier):
 
 
 WITNESSES = [
+    {"id": "c09-include-origin-set-before-save", "rule": "R-09.6", "file": "dns/zonefile.py", "expect": "fires",
+     "edits": [{"file": "dns/zonefile.py", "old": "                            new_origin = self.current_origin\n                        self.saved_state.append(", "new": "                            new_origin = self.current_origin\n                        self.current_origin = new_origin\n                        self.saved_state.append("}]},
+    {"id": "c09-include-restore-order", "rule": "R-09.6", "file": "dns/zonefile.py", "expect": "fires",
+     "old": "                            self.tok,\n                            self.current_origin,\n                            self.last_name,\n                            self.current_file,\n                            self.last_ttl,\n                            self.last_ttl_known,\n                            self.default_ttl,\n                            self.default_ttl_known,\n                        ) = self.saved_state.pop(-1)",
+     "new": "                            self.tok,\n                            self.last_name,\n                            self.current_origin,\n                            self.current_file,\n                            self.last_ttl,\n                            self.last_ttl_known,\n                            self.default_ttl,\n                            self.default_ttl_known,\n                        ) = self.saved_state.pop(-1)"},
     {"id": "c09-node-filter-keeps-only-neutral", "rule": "R-09.3", "file": "dns/node.py", "expect": "fires",
      "old": "                    if NodeKind.classify_rdataset(rds) != NodeKind.REGULAR", "new": "                    if NodeKind.classify_rdataset(rds) == NodeKind.NEUTRAL"},
     {"id": "c09-eat-line-spins-at-eof", "rule": "R-09.5", "file": "dns/zonefile.py", "expect": "fires",
